@@ -227,3 +227,27 @@ fn blind_alloc_body() {
 }
 #[cfg(kani)] #[kani::proof] #[kani::unwind(6)] fn blind_alloc() { blind_alloc_body() }
 #[cfg(all(not(kani), psc_verif_replay))] #[test] fn replay_blind_alloc() { vk::load_replay(); blind_alloc_body() }
+
+// ---- C03 (wave 6): collections of elements with an EMPTY encoding: a count needs no payload bytes ---------------------------
+// `[4n]` alone is a valid encoding of n units; a guard comparing the count with the bytes left rejects valid input.
+fn zero_width_elems_body() {
+    let bytes = [vk::any_u8(), vk::any_u8(), vk::any_u8()];
+    vk::assume(bytes[0] % 4 == 0 && bytes[0] <= 12);
+    let n = (bytes[0] >> 2) as usize;
+    let len = vk::any_usize();
+    vk::assume(1 <= len && len <= 3);
+    let mut a: &[u8] = &bytes[..len];
+    let r = <LinkedList<()>>::decode(&mut a);
+    assert!(matches!(&r, Ok(l) if l.len() == n), "LinkedList<()>: a valid count of empty-encoded elements is rejected or miscounted");
+    assert!(a.len() == len - 1, "LinkedList<()> consumed payload bytes that do not belong to it");
+    let mut b: &[u8] = &bytes[..len];
+    let r = <VecDeque<()>>::decode(&mut b);
+    assert!(matches!(&r, Ok(l) if l.len() == n), "VecDeque<()>: a valid count of empty-encoded elements is rejected or miscounted");
+    assert!(b.len() == len - 1, "VecDeque<()> consumed payload bytes that do not belong to it");
+    let mut c: &[u8] = &bytes[..len];
+    let r = <BTreeSet<()>>::decode(&mut c);
+    assert!(matches!(&r, Ok(l) if l.len() == (if n == 0 { 0 } else { 1 })), "BTreeSet<()>: a valid count of empty-encoded elements is rejected");
+    assert!(c.len() == len - 1, "BTreeSet<()> consumed payload bytes that do not belong to it");
+}
+#[cfg(kani)] #[kani::proof] #[kani::unwind(6)] fn zero_width_elems() { zero_width_elems_body() }
+#[cfg(all(not(kani), psc_verif_replay))] #[test] fn replay_zero_width_elems() { vk::load_replay(); zero_width_elems_body() }
